@@ -128,10 +128,14 @@ site('qbe.c', 'funcstore', 'error', 'volatile store is not yet supported',
      T('expr', 'vi_++', pre=PQ, cg=True, gcc='documented unsupported feature (volatile-qualified types); valid C', finding='C10-volatile-incdec',
        note='EXPRINCDEC stores with the qualifiers of the ++ expression (none), so the volatile test of funcstore never fires'),
      T('expr', '*(volatile int *)ip_ = 1', pre=PQ, cg=True, gcc='documented unsupported feature (volatile-qualified types); valid C'))
+site('qbe.c', 'convert', 'error', 'long double is not yet supported',
+     T('expr', 'h_v = (int)ld_', pre=PQ, cg=True, gcc='documented unsupported feature (long double); valid C'),
+     T('expr', 'ld_ = h_v', pre=PQ, cg=True, anyty=True, gcc='documented unsupported feature (long double); valid C'),
+     T('expr', 'ld_ = 1.5f', pre=PQ, cg=True, anyty=True, gcc='documented unsupported feature (long double); valid C'))
 site('qbe.c', 'qbetype', 'assert', '0', J('internal', 'scalar sizes are 1, 2, 4, 8, 16'))
 site('qbe.c', 'qbetype', 'error', 'long double is not yet supported',
      T('expr', 'ld_ = ld_ + 1', pre=PQ, cg=True, anyty=True, gcc='documented unsupported feature (long double); valid C'),
-     T('expr', 'h_v = (int)ld_', pre=PQ, cg=True, gcc='documented unsupported feature (long double); valid C'),
+     T('expr', 'ld_ = ld_', pre=PQ, cg=True, anyty=True, gcc='documented unsupported feature (long double); valid C'),
      T('fdecl', 'long double f_(long double a_) { return a_; }', gcc='documented unsupported feature (long double); valid C'))
 site('qbe.c', 'switchcase', 'error', "multiple 'case' labels with same value",
      T('stmt', 'switch (h_v) { case 1: ; case 1: ; }'), T('stmt', 'switch (h_v) { case 1: ; case 0x100000001: ; }', gcc=True),
